@@ -90,6 +90,7 @@ type FnCtx struct {
 	notes        map[string]bool
 	ghost        map[string]*Cell
 	lemmaName    string
+	lemmaStates  map[string]*State
 }
 
 // ghostCell returns the ghost cell with the given name, creating it (with the
